@@ -193,12 +193,14 @@ def stub_message(rng, mmsi, attrs=None):
 
 
 # ------------------------------------------------------------------------------------------------ implementation
-def _q(x, base):
-    """seconds (float) -> quarter seconds relative to base (exact), or a text if not representable."""
+def _q(x, base, q=None):
+    """seconds (float) -> model time units (1/q second, default quarter seconds) relative to base (exact), or a text if
+    not representable."""
+    q = q or Q
     if x is None:
         return None
     try:
-        v = (x - base) * Q
+        v = (x - base) * q
         if v == int(v):
             return int(v)
     except Exception:
@@ -226,18 +228,19 @@ def run_impl(h):
     e = env()
     cfg = h['cfg']
     base = cfg['base']
+    q = cfg.get('q', Q)          # model time unit of this history = 1/q second (4 by default; 4096 for sub-millisecond gaps)
     ttl_q = cfg['ttl_q']
     if ttl_q is None:
         ttl = None
     else:
-        ttl = ttl_q // Q if ttl_q % Q == 0 else ttl_q / Q
+        ttl = ttl_q // q if ttl_q % q == 0 else ttl_q / q
     out = []
     cur = {'events': [], 'deliv': []}
 
     def snap(tr):
         if tr is None:          # an event delivered without a track (never for a correct tracker): keep it observable
             return (-1, 0, ())
-        return (int(tr.mmsi) if isinstance(tr.mmsi, int) else repr(tr.mmsi), _q(tr.last_updated, base),
+        return (int(tr.mmsi) if isinstance(tr.mmsi, int) else repr(tr.mmsi), _q(tr.last_updated, base, q),
                 tuple('n' if getattr(tr, n) is None else e.token(getattr(tr, n)) for n in e.attrs))
 
     cbs = {}
@@ -262,14 +265,14 @@ def run_impl(h):
             try:
                 k = op[0]
                 if k == 'U':
-                    clock.t = float(base) + op[1] / Q
+                    clock.t = float(base) + op[1] / q
                     obj = e.build(op[2])[0]
                     if op[3] is None:
                         tracker.update(obj)
                     else:
-                        tracker.update(obj, float(base) + op[3] / Q)
+                        tracker.update(obj, float(base) + op[3] / q)
                 elif k == 'C':
-                    clock.t = float(base) + op[1] / Q
+                    clock.t = float(base) + op[1] / q
                     tracker.cleanup()
                 elif k == 'P':
                     r = tracker.pop_track(op[1])
@@ -288,7 +291,7 @@ def run_impl(h):
             rec['events'] = list(cur['events'])
             rec['deliv'] = list(cur['deliv'])
             rec['tracks'] = [snap(t) for t in tracker.tracks]
-            rec['oldest'] = _q(tracker.oldest_timestamp, base)
+            rec['oldest'] = _q(tracker.oldest_timestamp, base, q)
             out.append(rec)
     return out
 
@@ -869,7 +872,11 @@ def gen_history(rng, kind='mixed', with_queries=False, n_ops=None):
     if with_queries:
         for n in range(0, len(ms) + 2):
             ops.append(['L', n])
-    return {'cfg': {'ordered': ordered, 'ttl_q': ttl_q, 'base': base}, 'ops': ops}
+    cfg = {'ordered': ordered, 'ttl_q': ttl_q, 'base': base}
+    if rng.random() < 0.2:
+        cfg['q'] = 4096      # the same history on a 1/4096 s grid: timestamps a fraction of a millisecond apart (a tolerance
+        #                      in a comparison, a rounding of timestamps or a coarser clock only shows on such gaps)
+    return {'cfg': cfg, 'ops': ops}
 
 
 def directed_histories(rng):
